@@ -17,19 +17,19 @@ def _funcs():
             m.Block1014.write, m.Block1014.seek, m.Block1014.finalise, m.VbsReader.__next__]
 
 
-def history(writer, blocked, nrec, fins, maxlen, readable=True, optimize=0):
+def history(writer, blocked, nrec, fins, maxlen, readable=True, optimize=0, seekable=True):
     nblocks = (nrec * (maxlen + 4) + 4 * (1 + len(fins))) // 1012 + 2 + len(fins)
 
     def h():
         core.FUEL.set(nblocks + 4)
         m = M(optimize=optimize).mciipm
-        f = RopeFile(readable=readable)
+        f = RopeFile(readable=readable, seekable=seekable)
         ns = [sym_int('len%d' % i, 1, maxlen) for i in range(nrec)]
         recs = [Source('rec%d' % i, 'b', n).rope() for i, n in enumerate(ns)] if writer == 'vbs' else None
         vals = [Source('pan%d' % i, 't', n).rope() for i, n in enumerate(ns)] if writer != 'vbs' else None
 
         def rp():
-            a = {'kind': 'history', 'args': {'writer': writer, 'blocked': blocked, 'lengths': [ev(n) for n in ns], 'fins': list(fins), 'readable': readable,
+            a = {'kind': 'history', 'args': {'writer': writer, 'blocked': blocked, 'lengths': [ev(n) for n in ns], 'fins': list(fins), 'readable': readable, 'seekable': seekable,
                                             'content': [concretize(x, ev) for x in (recs if writer == 'vbs' else vals)]}}
             if optimize:
                 a['mode'] = '-O'
@@ -48,7 +48,14 @@ def history(writer, blocked, nrec, fins, maxlen, readable=True, optimize=0):
         snap = None
         for k, fin in enumerate(fins):
             core.FUEL.set(nblocks + 4)
-            if fin == 'close':
+            if not seekable:
+                # a forward-only output stream: the rewind at the end of the finalisation fails; the caller carries on and finalises again
+                import io as _io
+                try:
+                    w.close() if fin == 'close' else w.__exit__(None, None, None)
+                except (_io.UnsupportedOperation, OSError):
+                    pass
+            elif fin == 'close':
                 w.close()
             elif fin == 'bound-close':
                 bound_close()
@@ -65,7 +72,7 @@ def history(writer, blocked, nrec, fins, maxlen, readable=True, optimize=0):
             if k == 0:
                 snap = f.getvalue()
         final = f.getvalue()
-        if readable:
+        if readable and seekable:
             require(same_int(f.pos, 0), 'the finalised file is not left at its start', key='C11/rewind', replay=rp)
         if blocked and writer == 'vbs':
             from .c03 import stream_of
@@ -131,6 +138,14 @@ def obligations(tier):
                 obs.append(Ob('%s/%s/1rec/%s' % (writer, 'blocked' if blocked else 'unblocked', '+'.join(fins)),
                               history(writer, blocked, 1, fins, 2500 if writer == 'vbs' else 99), 120,
                               'finalisation through a with block that is left by an exception / through a close callable taken before the first finalisation', _funcs))
+    for writer in ('vbs', 'ipm'):
+        for blocked in (False, True):
+            for fins in (('close', 'close'), ('close', 'exit')):
+                if q and writer == 'ipm' and fins != ('close', 'exit'):
+                    continue
+                obs.append(Ob('%s/%s/1rec/forward-only-stream/%s' % (writer, 'blocked' if blocked else 'unblocked', '+'.join(fins)),
+                              history(writer, blocked, 1, fins, 2500 if writer == 'vbs' else 99, seekable=False), 120,
+                              'output stream that cannot seek (pipe): the rewind of the first finalisation raises, a second finalisation adds nothing', _funcs))
     for blocked in (False, True):
         for fins in (('close', 'with'), ('exit', 'with'), ('with', 'with'), ('close', 'with', 'close')):
             obs.append(Ob('vbs/%s/1rec/%s' % ('blocked' if blocked else 'unblocked', '+'.join(fins)), history('vbs', blocked, 1, fins, 2500), 120,
